@@ -9,7 +9,7 @@ CONSTANTS
   RxDeltas <- RxBack
   Delays <- DelaysFull
   CtrlDelays = {5}
-  IndexMode = "pos"
-  Record = TRUE
-INVARIANTS EmitScn
+  IndexMode = "zero"
+  Record = FALSE
+INVARIANTS ThrAtLeastD Permutation OrderedUnderBound
 CHECK_DEADLOCK FALSE
